@@ -824,6 +824,26 @@ func makeFixture(m *genMake, keys map[string]any) []byte {
 			label = "NEW CERTIFICATE REQUEST" // what `openssl req -newhdr` and older tools write (RFC 7468, section 7)
 		}
 		pem.Encode(&bb, &pem.Block{Type: label, Bytes: der})
+	case "key+csr":
+		// a private key AND a request in one file: the request is for ANOTHER key (the entity once was certified from a request and
+		// later got a key of its own; the old request was left in the file) or for the same key; in either order
+		reqKey := key
+		if strings.Contains(m.Variant, "other") {
+			reqKey = makeKey(m.Key)
+		}
+		der, err := x509.CreateCertificateRequest(crand.Reader, richCsrTemplate(m.CN), reqKey)
+		if err != nil {
+			panic(err)
+		}
+		keyBlock := &pem.Block{Type: "PRIVATE KEY", Bytes: marshalPKCS8Variant(key, "")}
+		reqBlock := &pem.Block{Type: "CERTIFICATE REQUEST", Bytes: der}
+		if strings.Contains(m.Variant, "request-first") {
+			pem.Encode(&bb, reqBlock)
+			pem.Encode(&bb, keyBlock)
+		} else {
+			pem.Encode(&bb, keyBlock)
+			pem.Encode(&bb, reqBlock)
+		}
 	default: // "key"
 		pem.Encode(&bb, &pem.Block{Type: "PRIVATE KEY", Bytes: marshalPKCS8Variant(key, m.Variant)})
 	}
